@@ -107,6 +107,17 @@ def count(shape):
     return sorted(d.sym for d in shape if not d.one)
 
 
+class Opaque:
+    """A value the interpreter could not give a shape to. It is harmless as long as it does not reach an operation
+    or a result the rule checks; there it becomes Undecided with the original reason."""
+
+    def __init__(self, why):
+        self.why = why
+
+    def __repr__(self):
+        return "<unknown: %s>" % self.why
+
+
 class _Conflict:
     def __init__(self, name, a, b):
         self.name, self.a, self.b = name, a, b
@@ -157,6 +168,9 @@ class ShapeInterp:
                     self.fields[t.attr] = v
                 elif isinstance(t, ast.Subscript):
                     tgt = self.ev(t, env, fn, depth)
+                    for x in (tgt, v):
+                        if isinstance(x, Opaque):
+                            raise Undecided("`%s`: %s" % (ast.unparse(st)[:60], x.why))
                     if isinstance(tgt, Arr) and isinstance(v, Arr):
                         # value must broadcast INTO the target: no expansion of the target
                         res = broadcast(tgt, v, ast.unparse(st))
@@ -165,6 +179,19 @@ class ShapeInterp:
                                                                                                   tgt))
                 else:
                     raise Undecided("assignment target `%s`" % ast.unparse(t))
+            elif isinstance(st, ast.AugAssign) and isinstance(st.target, ast.Name):
+                cur = self.ev(st.target, env, fn, depth)
+                v = self.ev(st.value, env, fn, depth)
+                cur = SCALAR if isinstance(cur, DimVal) else cur
+                v = SCALAR if isinstance(v, DimVal) else v
+                if isinstance(cur, Arr) and isinstance(v, Arr):
+                    res = broadcast(cur, v, ast.unparse(st))
+                    if cur.shape and tuple(res.shape) != tuple(cur.shape) and count(res.shape) != count(cur.shape):
+                        raise ShapeError("`%s`: in-place result %r does not fit the target %r" % (ast.unparse(st),
+                                                                                                   res, cur))
+                    env[st.target.id] = cur if cur.shape else res
+                else:
+                    env[st.target.id] = Opaque("augmented assignment `%s`" % ast.unparse(st)[:60])
             elif isinstance(st, ast.If):
                 test = ast.unparse(st.test)
                 if test in ("self.scaler is not None",):
@@ -201,6 +228,13 @@ class ShapeInterp:
 
     # ------------------------------------------------------------------ expressions
     def ev(self, e, env, fn, depth):
+        try:
+            return self._ev(e, env, fn, depth)
+        except Undecided as u:
+            # keep the innermost reason
+            return Opaque(str(u))
+
+    def _ev(self, e, env, fn, depth):
         if isinstance(e, ast.Name):
             if e.id in env:
                 if isinstance(env[e.id], _Conflict):
@@ -265,10 +299,8 @@ class ShapeInterp:
         if isinstance(e, ast.Call):
             return self.call(e, env, fn, depth)
         if isinstance(e, ast.IfExp):
-            try:
-                return self.ev(e.body, env, fn, depth)
-            except Undecided:
-                return SCALAR
+            v = self.ev(e.body, env, fn, depth)
+            return SCALAR if isinstance(v, Opaque) else v
         raise Undecided("expression `%s`" % ast.unparse(e)[:60])
 
     def subscript(self, e, env, fn, depth):
